@@ -242,9 +242,9 @@ def main():
   rep.coverage["rule"] = ("one evaluation = one bundle applied to the real engine with every stored "
                           "action of the reply classified; non-trivial = the reply has stored "
                           "actions")
-  C02.tune_explore()
+  C02.tune_explore(4)
   SINK.open()
-  explore.explore(rep, "checks.C31", "C31Monitor", n_quick=144, budget_quick_s=30)
+  explore.explore(rep, "checks.C31", "C31Monitor", n_quick=128, budget_quick_s=22)
   rep.coverage["stored_actions_classified"] = SINK.total()
   return rep.finish()
 
